@@ -47,7 +47,7 @@ class WrapperSpec(nfa.Spec):
             return ("timed_out",)
         if ev == "sw:Sel::" + self.fut_arm and ph == "raced":
             return ("completed",)
-        if ev == "done:map":
+        if ev == "done:handler":
             if ph == "unlimited":
                 return ("completed_alone",)
             return st
@@ -153,7 +153,8 @@ def run_cfg(ctx, fx):
         f = fx.fn(term)
         if not ctx.require(f is not None, "R11.1", "terminal:" + term, "terminal not found"):
             continue
-        b = ctx.body(fx, f)
+        wf = graph.wiring_fn(fx, term, lambda t: (t.get("callee") or "").endswith("::with_config")) or f
+        b = ctx.body(fx, wf)
         wc = [t for _, t in b.normal_calls() if (t.get("callee") or "").endswith("::with_config")]
         ok = len(wc) == 1 and all(x.kind == "arg" for x in roots(b, wc[0]["args"][1]))
         # and the configured environment is the one whose loop is created
@@ -202,7 +203,7 @@ def run_cfg(ctx, fx):
     if not ctx.require(len(t_idx) == 1 and len(f_idx) == 1, "R11.1", "loop-captures-config", "the plain loop must capture config.timeout and config.fail_on_timeout: captures %s" % paths, fn=lf["def"], site=lf["loc"], detail=paths):
         return None
     wraps = [(bi, t) for bi, t in lb.normal_calls() if loops.local_wrapper(t)]
-    inv = [(bi, t) for bi, t in lb.normal_calls() if loops.is_task_invoke(t)]
+    inv = [(bi, t) for bi, t, _ok in loops.task_invokes(fx, lb)]
     ok = len(wraps) == 1 and len(inv) == 1
     if ok:
         wt = wraps[0][1]
@@ -254,11 +255,11 @@ def check_wrapper(ctx, fx, co):
         return
     A = nfa.Alphabet(
         calls=[("delay", lambda t: (t.get("callee") or "").startswith("futures_timer::") and (t.get("callee") or "").endswith("::new")),
-               ("select", nfa.callee_ends("poll_fn::poll_fn")),
-               ("map", nfa.callee_ends("FutureExt::map"))],
+               ("select", nfa.callee_ends("poll_fn::poll_fn"))],
         adts={"core::option::Option": "Option"}, retval=True,
         type_tags=[("Option<core::time::Duration>", "timeout")])
     A.adt_fn = lambda adt: "Sel" if adt.endswith("::__PrivResult") else None
+    A.upvar_futs = {0: "handler"}  # the handler future given to the wrapper, awaited directly or through map / fuse
     n = nfa.build(b, A)
     viols, ps = nfa.check(n, WrapperSpec(delay_arm[0], fut_arm[0]))
     ctx.count_nfa(n.stats(), ps)
